@@ -58,6 +58,19 @@ def documents(tier, rng):
             if a != b:
                 yield to_text(mos(5, E(a, E('roID', text='R')), E(b, E('roID', text='R')))), {'kind': 'two', 'tag': a + '+' + b}
                 yield to_text(mos(5, E(b, E('roID', text='R')), E(a, E('roID', text='R')))), {'kind': 'two', 'tag': b + '+' + a}
+    # two roElementAction elements of different shapes (and one beside another message element): the first one decides
+    shapes = [('DELETE', None, [[ref('storyID', 'A')]]), ('SWAP', [ref('storyID', 'A')], [[ref('itemID', 'i'), ref('itemID', 'j')]]),
+              ('FROB', None, [[ref('storyID', 'A')]]), ('INSERT', [ref('storyID', 'A'), ref('itemID', 'i')], [[item('n')]]),
+              ('MOVE', [ref('storyID', 'A')], [[ref('storyID', 'B')]]), (ABSENT, None, [])]
+    for x in shapes:
+        for y in shapes:
+            if x != y:
+                d = element_action(5, *x)
+                d.append(element_action(5, *y)[3])
+                yield to_text(d), {'kind': 'two-ea', 'tag': '%s+%s' % (x[0], y[0])}
+        d = element_action(5, *x)
+        d.insert(3, E('roStoryMove', E('roID', text='R')))
+        yield to_text(d), {'kind': 'two-ea', 'tag': 'roStoryMove+%s' % (x[0],)}
     # nested (not a direct child): not a message
     for t in TAGS[:4]:
         yield to_text(mos(5, E('wrapper', E(t, E('roID', text='R'))))), {'kind': 'nested', 'tag': t}
